@@ -22,7 +22,7 @@ def run(ctx):
                             "EXAMINE-session command occurred with a non-empty mailbox")
     ok = ctx.prove("Properties/C05.v")
     n = 400 if ctx.thorough else 64
-    hs = mboxx.generate(ctx, n, 70 if ctx.thorough else 45, mix=MIX)
+    hs = mboxx.generate(ctx, n, 70 if ctx.thorough else 45, mix=MIX, pack=(4, 4, 5))
     for h in [h for h in hs if h.error][:3]:
         ctx.violation("the implementation raised while running a history",
                       {"seed": h.seed, "ops": [repr(o) for o in h.ops], "error": h.error})
